@@ -9,6 +9,7 @@ mod chart;
 mod coord;
 mod engines;
 mod gen;
+mod gtext;
 mod kside;
 mod lr;
 mod model;
@@ -25,9 +26,11 @@ use coord::{CheckOptions, Engine, Tier};
 fn engine_for(prop: &str) -> Option<&'static dyn Engine> {
     static LALR: engines::lalr_diff::LalrDiff = engines::lalr_diff::LalrDiff;
     static EMIT: engines::emit_run::EmitRun = engines::emit_run::EmitRun;
+    static FRONT: engines::front::Front = engines::front::Front;
     match prop {
         "C04" | "C11" | "C17" => Some(&LALR),
         "C01" | "C02" | "C03" => Some(&EMIT),
+        "C07" | "C08" | "C09" | "C10" => Some(&FRONT),
         _ => None,
     }
 }
@@ -84,6 +87,13 @@ fn main() {
             coord::worker_main(engine, &args[1..])
         }
         Some("selftest") => engines::selftest(),
+        Some("oneshot") if args.len() >= 2 => engines::stress::oneshot_main(&args[1]),
+        Some("stress-dump") if args.len() >= 3 => {
+            let s = engines::stress::stress_case(Tier::Quick, seed_from_env(), args[1].parse().unwrap());
+            std::fs::write(&args[2], &s.text).unwrap();
+            println!("{} longest_list={} bytes={}", s.class, s.longest_list, s.text.len());
+            0
+        }
         _ => {
             eprintln!("usage: kv check <PROP> <quick|thorough> | kv replay <file> | kv selftest");
             2
